@@ -31,7 +31,7 @@ ASSUMPTIONS = [
     "records are captured by a handler on the root logger (loggers propagate); logger identity = record.name",
     "a message whose own format and arguments agree: 'm', 'm %s'%(x,), '%d+%s'%(1,'y'), '%(k)s'%{'k':1}, '100% sure' without arguments",
 ]
-BOUNDS = {"quick": {"N": 2, "names": 9}, "thorough": {"N": 3, "names_for_3": ["a", "%s"]}}
+BOUNDS = {"quick": {"N": 2, "names": 9, "plus": "chains of 3 over trace-id options"}, "thorough": {"N": 3, "names_for_3": ["a", "%s"]}}
 EXHAUSTIVE = {"quick": True, "thorough": True}
 SAMPLE_EVERY = {"quick": 300, "thorough": 1500}
 
@@ -112,6 +112,17 @@ def programs(tier: str):
                         {"opt": list(b), "parent": 0, "place": place},
                     ]
                 }
+    # chains of three scopes (own trace id or inherited at every level, inline or spawned): the
+    # innermost inherits from its DIRECT parent
+    for trs in itertools.product((0, 1), repeat=3):
+        for pb, pc in itertools.product(("inline", "spawn"), repeat=2):
+            yield {
+                "nodes": [
+                    {"opt": [False, trs[0], "a"], "parent": None, "place": "root"},
+                    {"opt": [False, trs[1], "b"], "parent": 0, "place": pb},
+                    {"opt": [False, trs[2], "c"], "parent": 1, "place": pc},
+                ]
+            }
     if tier == "thorough":
         opts = _node_opts(["a", "%s"], traces=(0, 1))
         for a in opts:
